@@ -310,7 +310,9 @@ theorem sound_bin_shift {op : BinOp} (hop : op.isShift = true) (a b : Expr) (sa 
     ∃ t, Sound (.bin op a b) (Spec.CInt.promote sa) t := by
   have hpa := promote_ty ha.ty
   have hpb := promote_ty hb.ty
-  refine ⟨_, ?_, ?_, trivial, ?_⟩
+  refine ⟨.bin (binSym op) (Model.CEval.promote ta).ty
+        (coerce (Model.CEval.promote ta) (Model.CEval.promote ta).ty)
+        (coerce (Model.CEval.promote tb) (Model.CEval.promote ta).ty), ?_, ?_, trivial, ?_⟩
   · simp only [render, elaborate, ha.elab_ok, hb.elab_ok, bind_ok]; exact onBinop_shift hop ta tb
   · exact hpa
   · intro v hv
@@ -380,5 +382,115 @@ theorem sound_lor (a b : Expr) (sa sb : Spec.CInt.Ty) (ta tb : TExpr)
           simp only [hy, Option.map_some, Option.some.injEq] at hv
           subst hv
           simp only [hb.value y hy, bind_ok, pure_eq_ok]; rfl
+
+theorem onTernop_eq (c a b : TExpr) :
+    onTernop c a b = .tern (arithOperands a b).1 c (arithOperands a b).2.1 (arithOperands a b).2.2 := rfl
+
+theorem fit_convert (σ : Spec.CInt.Ty) (v : Int) : fit (M σ) (convert σ v) = convert σ v := by
+  rw [fit, toIntegerType_eq_convert, convert_of_inRange (convert_inRange σ v)]
+
+theorem sound_cond (c a b : Expr) (sc sa sb : Spec.CInt.Ty) (tc ta tb : TExpr)
+    (hc : Sound c sc tc) (ha : Sound a sa ta) (hb : Sound b sb tb)
+    (htc : typeOf c = some sc) (hta : typeOf a = some sa) (htb : typeOf b = some sb) :
+    ∃ t, Sound (.cond c a b) (uac sa sb) t := by
+  obtain ⟨h1, h2, h3⟩ := arithOperands_ty (a := ta) (b := tb) ha.ty hb.ty
+  refine ⟨onTernop tc ta tb, ?_, ?_, trivial, ?_⟩
+  · simp only [render, elaborate, hc.elab_ok, ha.elab_ok, hb.elab_ok, bind_ok, pure_eq_ok]
+  · rw [onTernop_eq]; exact h1
+  · intro v hv
+    simp only [Spec.CInt.eval, htc, hta, htb] at hv
+    cases hx : Spec.CInt.eval c with
+    | none => simp [hx] at hv
+    | some x =>
+      simp only [hx] at hv
+      rw [onTernop_eq]
+      simp only [eval, hc.value x hx, bind_ok, h1]
+      split at hv
+      · rename_i h0
+        rw [if_pos h0]
+        cases hy : Spec.CInt.eval a with
+        | none => simp [hy] at hv
+        | some y =>
+          simp only [hy, Option.map_some, Option.some.injEq] at hv; subst hv
+          simp only [arithOperands_evalL ha.ty hb.ty (ha.value y hy) (ha.inRange hy), bind_ok, pure_eq_ok, fit_convert]
+      · rename_i h0
+        rw [if_neg h0]
+        cases hy : Spec.CInt.eval b with
+        | none => simp [hy] at hv
+        | some y =>
+          simp only [hy, Option.map_some, Option.some.injEq] at hv; subst hv
+          simp only [arithOperands_evalR ha.ty hb.ty (hb.value y hy) (hb.inRange hy), bind_ok, pure_eq_ok, fit_convert]
+
+/-! ### the main induction -/
+
+theorem binop_cases (op : BinOp) :
+    op.isArith = true ∨ op.isShift = true ∨ BinOp.isCmp op = true ∨ op = .land ∨ op = .lor := by
+  cases op <;> simp [BinOp.isArith, BinOp.isShift, BinOp.isCmp]
+
+theorem elab_sound : ∀ (e : Expr) (σ : Spec.CInt.Ty), typeOf e = some σ → ∃ t, Sound e σ t := by
+  intro e
+  induction e with
+  | lit b s v => exact sound_lit b s v
+  | chr v => exact sound_chr v
+  | cast τ a ih =>
+    intro σ h
+    simp only [typeOf, Option.map_eq_some_iff] at h
+    obtain ⟨sa, hsa, rfl⟩ := h
+    obtain ⟨ta, hta⟩ := ih sa hsa
+    exact ⟨_, sound_cast τ a sa ta hta⟩
+  | un op a ih =>
+    intro σ h
+    cases hsa : typeOf a with
+    | none => cases op <;> simp [typeOf, hsa] at h
+    | some sa =>
+      obtain ⟨ta, hta⟩ := ih sa hsa
+      obtain ⟨t, ht⟩ := sound_un op a sa ta hta hsa
+      have : σ = if op = .lnot then .int else Spec.CInt.promote sa := by
+        cases op <;> simp [typeOf, hsa] at h <;> simp [h]
+      subst this
+      exact ⟨t, ht⟩
+  | bin op a b iha ihb =>
+    intro σ h
+    cases hsa : typeOf a with
+    | none => simp [typeOf, hsa] at h
+    | some sa =>
+      cases hsb : typeOf b with
+      | none => simp [typeOf, hsa, hsb] at h
+      | some sb =>
+        obtain ⟨ta, hta⟩ := iha sa hsa
+        obtain ⟨tb, htb⟩ := ihb sb hsb
+        simp only [typeOf, hsa, hsb] at h
+        rcases binop_cases op with hop | hop | hop | hop | hop
+        · simp only [hop, if_true, Option.some.injEq] at h; subst h
+          exact sound_bin_arith hop a b sa sb ta tb hta htb hsa hsb
+        · have h' : op.isArith = false := by cases op <;> simp_all [BinOp.isArith, BinOp.isShift]
+          simp only [h', hop, if_true, Bool.false_eq_true, if_false, Option.some.injEq] at h; subst h
+          exact sound_bin_shift hop a b sa sb ta tb hta htb hsa hsb
+        · have h' : op.isArith = false := by cases op <;> simp_all [BinOp.isArith, BinOp.isCmp]
+          have h'' : op.isShift = false := by cases op <;> simp_all [BinOp.isShift, BinOp.isCmp]
+          simp only [h', h'', Bool.false_eq_true, if_false, Option.some.injEq] at h; subst h
+          exact sound_bin_cmp hop a b sa sb ta tb hta htb hsa hsb
+        · subst hop
+          simp only [BinOp.isArith, BinOp.isShift, Bool.false_eq_true, if_false, Option.some.injEq] at h; subst h
+          exact sound_land a b sa sb ta tb hta htb hsa hsb
+        · subst hop
+          simp only [BinOp.isArith, BinOp.isShift, Bool.false_eq_true, if_false, Option.some.injEq] at h; subst h
+          exact sound_lor a b sa sb ta tb hta htb hsa hsb
+  | cond c a b ihc iha ihb =>
+    intro σ h
+    cases hsc : typeOf c with
+    | none => simp [typeOf, hsc] at h
+    | some sc =>
+      cases hsa : typeOf a with
+      | none => simp [typeOf, hsc, hsa] at h
+      | some sa =>
+        cases hsb : typeOf b with
+        | none => simp [typeOf, hsc, hsa, hsb] at h
+        | some sb =>
+          obtain ⟨tc, htc⟩ := ihc sc hsc
+          obtain ⟨ta, hta⟩ := iha sa hsa
+          obtain ⟨tb, htb⟩ := ihb sb hsb
+          simp only [typeOf, hsc, hsa, hsb, Option.some.injEq] at h; subst h
+          exact sound_cond c a b sc sa sb tc ta tb htc hta htb hsc hsa hsb
 
 end Proofs.CEval
